@@ -210,9 +210,12 @@ def corr_pipeline(ctx, driver, cases, results):
             if "verdict2" in res and not res.get("stopped") and subs:
                 m_an = [x[i] for i in a["analytic"]]
                 m_nu = [x[i] for i in a["numeric"]]
-                want = [s_ for s_ in (m_an, m_nu) if s_]
-                if sorted(map(sorted, subs)) != sorted(map(sorted, want)) and not case.get("flags", {}).get("disable_analytic_solver"):
-                    bad.append("sub-systems: model %r, impl %r" % (want, subs))
+                want = [sorted(s_) for s_ in (m_an, m_nu) if s_]
+                # every sub-system the analysis asked for is one of the model's two (a run may end before it asks for both)
+                if not case.get("flags", {}).get("disable_analytic_solver"):
+                    for s_ in subs:
+                        if sorted(s_) not in want:
+                            bad.append("sub-system requested by the analysis: %r, model's sub-systems: %r" % (s_, want))
             nv = res.get("numeric_values") or {}
             for i, val in a.get("numeric_rhs", []):
                 name = x[i]
